@@ -113,7 +113,7 @@ pub fn run(cfg: &Cfg) -> Report {
     report.absorb(ctx);
 
     // (B) beyond the brute-force bound: validity, irredundancy, and membership of derived sets
-    let big: Vec<(usize, usize)> = cfg.tier.pick(vec![(2, 10), (3, 8)], vec![(2, 13), (3, 10)]);
+    let big: Vec<(usize, usize)> = cfg.tier.pick(vec![(2, 11), (3, 10), (4, 7)], vec![(2, 14), (3, 12), (4, 9)]);
     for (dim, n) in big {
         let mut ctx = Ctx::new();
         if let Some(out) = generator_output(&mut ctx, dim, n) {
